@@ -20,8 +20,11 @@
      Exec n      Execute loop of n takes one publishCh entry: execPublish
                  (writes to every announced tuple whose peer is neither the origin
                  nor the previous hop and which is in the peers map)
-     LinkUp u v l    AddPeerStream + the loop body that starts the session: u
-                 has a peers entry for tuple (v, l)
+     LinkAdd u v l   AddPeerStream: u has a peers entry for tuple (v, l) whose
+                 stream has no context yet (a running session of the same tuple
+                 is cancelled and replaced)
+     LinkStart u v l the loop body gives the stream its context: the session
+                 is executing (readPump and writer run)
      PeerGone u v l  the session of u for tuple (v, l) ended: delete(m.peers);
                  the peerChannels entries of the tuple are NOT removed (as in
                  the code) - they are ignored while the tuple is not in peers
@@ -45,7 +48,8 @@ Record net := Net {
   pubq : list pend;                 (* publishCh entries not yet executed *)
   pc : list pce;                    (* peerChannels *)
   chans : list (nat * nat);         (* (n, ch): m.channels of n has key ch *)
-  up : list lk                      (* peers maps *)
+  up : list lk;                     (* peers entries whose stream is executing (ctx != nil) *)
+  waiting : list lk                    (* peers entries added by AddPeerStream and not started yet (ctx == nil) *)
 }.
 
 Inductive nact :=
@@ -54,7 +58,8 @@ Inductive nact :=
 | Exec (n : nat)
 | SetPC (u v l ch : nat) (b : bool)
 | SetChan (n ch : nat) (b : bool)
-| LinkUp (u v l : nat)
+| LinkAdd (u v l : nat)
+| LinkStart (u v l : nat)
 | PeerGone (u v l : nat).
 
 Inductive nobs :=
@@ -100,7 +105,9 @@ Fixpoint take_pend (n : nat) (l : list pend) : option (pend * list pend) :=
   end.
 
 (* execPublish: tuples announced for the channel whose peer is neither the
-   origin nor the previous hop and which are in the peers map *)
+   origin nor the previous hop, which are in the peers map and whose stream has
+   been started (the "ok && peer.ctx != nil" guard: an entry that is only
+   pending is skipped) *)
 Definition targets (pcl : list pce) (ups : list lk) (n prev : nat) (m : msg) : list (nat * nat) :=
   map (fun e => (c_v e, c_l e))
       (filter (fun e => Nat.eqb (c_u e) n && Nat.eqb (c_ch e) (m_ch m)
@@ -112,17 +119,19 @@ Definition targets (pcl : list pce) (ups : list lk) (n prev : nat) (m : msg) : l
 Definition handle_valid (s : net) (n from : nat) (m : msg) : net * list nobs :=
   if seen_b n m (seen s) then (s, [])
   else
-    (Net ((n, m) :: seen s) (flight s) (pubq s ++ [Pend n from m]) (pc s) (chans s) (up s),
+    (Net ((n, m) :: seen s) (flight s) (pubq s ++ [Pend n from m]) (pc s) (chans s) (up s) (waiting s),
      Accepted n from m :: (if chan_b n (m_ch m) (chans s) then [Handed n m] else [])).
 
 Definition nstep (s : net) (a : nact) : net * list nobs :=
   match a with
   | Publish m => handle_valid s (m_origin m) (m_origin m) m
   | Recv u v l =>
+      if up_b v u l (waiting s) && negb (up_b v u l (up s)) then (s, [])  (* the reader has not been started: the packet waits *)
+      else
       match take_pkt u v l (flight s) with
       | None => (s, [])
       | Some (p, rest) =>
-          let s1 := Net (seen s) rest (pubq s) (pc s) (chans s) (up s) in
+          let s1 := Net (seen s) rest (pubq s) (pc s) (chans s) (up s) (waiting s) in
           if up_b v u l (up s) && chan_b v (m_ch (p_msg p)) (chans s) then handle_valid s1 v u (p_msg p)
           else (s1, [])
       end
@@ -131,27 +140,33 @@ Definition nstep (s : net) (a : nact) : net * list nobs :=
       | None => (s, [])
       | Some (q, rest) =>
           let ts := targets (pc s) (up s) n (q_prev q) (q_msg q) in
-          (Net (seen s) (flight s ++ map (fun t => Pkt n (fst t) (snd t) (q_msg q)) ts) rest (pc s) (chans s) (up s),
+          (Net (seen s) (flight s ++ map (fun t => Pkt n (fst t) (snd t) (q_msg q)) ts) rest (pc s) (chans s) (up s) (waiting s),
            map (fun t => Sent n (fst t) (snd t) (q_msg q)) ts)
       end
   | SetPC u v l ch b =>
       if b then
         (if pc_b u v l ch (pc s) then (s, [])
-         else (Net (seen s) (flight s) (pubq s) (pc s ++ [PC u v l ch]) (chans s) (up s), []))
+         else (Net (seen s) (flight s) (pubq s) (pc s ++ [PC u v l ch]) (chans s) (up s) (waiting s), []))
       else
-        (Net (seen s) (flight s) (pubq s) (filter (fun e => negb (pce_is u v l ch e)) (pc s)) (chans s) (up s), [])
+        (Net (seen s) (flight s) (pubq s) (filter (fun e => negb (pce_is u v l ch e)) (pc s)) (chans s) (up s) (waiting s), [])
   | SetChan n ch b =>
       if b then
         (if chan_b n ch (chans s) then (s, [])
-         else (Net (seen s) (flight s) (pubq s) (pc s) (chans s ++ [(n, ch)]) (up s), []))
+         else (Net (seen s) (flight s) (pubq s) (pc s) (chans s ++ [(n, ch)]) (up s) (waiting s), []))
       else
         (Net (seen s) (flight s) (pubq s) (pc s)
-             (filter (fun e => negb (Nat.eqb (fst e) n && Nat.eqb (snd e) ch)) (chans s)) (up s), [])
-  | LinkUp u v l =>
-      if up_b u v l (up s) then (s, [])
-      else (Net (seen s) (flight s) (pubq s) (pc s) (chans s) (up s ++ [LK u v l]), [])
+             (filter (fun e => negb (Nat.eqb (fst e) n && Nat.eqb (snd e) ch)) (chans s)) (up s) (waiting s), [])
+  | LinkAdd u v l =>
+      if up_b u v l (waiting s) then (s, [])
+      else (Net (seen s) (flight s) (pubq s) (pc s) (chans s)
+                (filter (fun e => negb (lk_is u v l e)) (up s)) (waiting s ++ [LK u v l]), [])
+  | LinkStart u v l =>
+      if up_b u v l (waiting s) then
+        (Net (seen s) (flight s) (pubq s) (pc s) (chans s) (up s ++ [LK u v l])
+             (filter (fun e => negb (lk_is u v l e)) (waiting s)), [])
+      else (s, [])
   | PeerGone u v l =>
-      (Net (seen s) (flight s) (pubq s) (pc s) (chans s) (filter (fun e => negb (lk_is u v l e)) (up s)), [])
+      (Net (seen s) (flight s) (pubq s) (pc s) (chans s) (filter (fun e => negb (lk_is u v l e)) (up s)) (waiting s), [])
   end.
 
 Fixpoint nrun (s : net) (l : list nact) : net * list nobs :=
